@@ -204,7 +204,7 @@ pub fn gen_value(rng: &mut Rng, class: ColClass, row_seq: u64, salt: u64) -> Cel
             let c = (b'a' + rng.below(26) as u8) as char;
             Cell::S(std::iter::repeat(c).take(n).collect())
         }
-        ColClass::StrUnicode => Cell::S(rng.pick(&["é", "日本語", "naïve", "🙂🙂", "a\u{0301}", "Ω≈ç√", "\u{7f}x", "tab\there", "q'uote", "per%cent_", ""]).to_string()),
+        ColClass::StrUnicode => Cell::S(rng.pick(&["é", "日本語", "naïve", "🙂🙂", "a\u{0301}", "Ω≈ç√", "q'uote", "per%cent_", ""]).to_string()),
         ColClass::StrEmptyish => Cell::S(rng.pick(&["", "", " ", "a", "0", "null", "NULL"]).to_string()),
         ColClass::MixIntFloat => {
             if rng.below(2) == 0 {
